@@ -100,6 +100,8 @@ class Env:
         self.ntemp = 0
         self.depth = 0
         self.pack_errors = []
+        self.staged_oids = []
+        self.last_tid = {}
         self.dropped_by_pack = []   # list of sets of (oid, tid)
         self.db = None
         self._interpose()
@@ -276,10 +278,12 @@ class Env:
                         out, exc = errname(e), e
                     line = ctx(res, exc)
                     if name == 'pack' and exc is not None:
-                        # whether a pack succeeds is C07/C08's subject; here: a pack that dropped …
+                        # whether a pack succeeds is C07/C08's subject (e.g. MappingStorage refuses a pack
+                        # time before an earlier one); a pack that raised did not reach the blob step
                         import traceback
                         env.pack_errors.append((out, traceback.format_exception(exc)[-3:]))
                         out = 'ok'
+                        line = 'nop'
                     obs, files, stray = env.observe(out, env.rec.events[n0:],
                                                     env.blobfile_opens[o0:], before)
                     env.calls.append((len(env.lines), name, out))
@@ -293,7 +297,16 @@ class Env:
             setattr(S, name, call)
 
         def pre_begin(txn, tid=None, *a, **kw):
+            env.staged_oids = []
             return lambda res, exc: 'begin %d' % u64(env.base._tid)
+
+        def pre_finish(txn, *a, **kw):
+            def line(res, exc):
+                if exc is None:
+                    for o in env.staged_oids:
+                        env.last_tid[o] = u64(res)
+                return 'finish'
+            return line
 
         def pre_store(oid, serial, data, version, txn):
             v = env._val(data)
@@ -321,11 +334,13 @@ class Env:
 
         def pre_restoreblob(oid, serial, data, blobfilename, prev_txn, txn):
             n = mk_temp(blobfilename)
+            env.staged_oids.append(u64(oid))
             return lambda res, exc: 'restoreblob %d %d' % (u64(oid), n)
 
         def pre_restore(oid, serial, data, version, prev_txn, txn):
             v = env._val(data) if data is not None else 0
-            return lambda res, exc: 'store %d %d %d' % (u64(oid), v, self._cur_tid(oid))
+            env.staged_oids.append(u64(oid))
+            return lambda res, exc: 'store %d %d %d' % (u64(oid), v, env.last_tid.get(u64(oid), 0))
 
         def pre_simple(word):
             return lambda *a, **kw: (lambda res, exc: word)
@@ -358,7 +373,7 @@ class Env:
         if self.flavor == 'fs':
             wrap('restore', pre_restore)
         wrap('tpc_vote', pre_simple('vote'))
-        wrap('tpc_finish', pre_simple('finish'))
+        wrap('tpc_finish', pre_finish)
         wrap('tpc_abort', pre_abort)
         if self.flavor == 'fs':
             wrap('undo', pre_undo)
@@ -369,3 +384,34 @@ class Env:
             return u64(self.storage.getTid(oid))
         except Exception:
             return 0
+
+
+def copy_to_fresh(src, root, expected):
+    """copyTransactionsFrom(src) into a fresh FileStorage+blob_dir (restoreBlob path); returns the
+    destination's model lines, real observations and oracle problems (dest files must be exactly
+    the source's committed blob revisions `expected`, byte for byte)"""
+    src_blobrecs = {(o, t) for o, t, kd in src.records() if kd == 'blob'}
+    if src_blobrecs != set(expected):
+        return [], [], []      # source already lost a file (open wrapper-pack finding): restore() path, not ours
+    dst = Env(os.path.join(root, 'copy'), 'fs')
+    problems = []
+    try:
+        try:
+            dst.storage.copyTransactionsFrom(src.storage)
+        except Exception as e:
+            problems.append(('C13:copy-failed', 'copyTransactionsFrom raised %s: %s' % (type(e).__name__, str(e)[:120])))
+        files, stray = dst.scan()
+        if stray:
+            problems.append(('C13:stray-file', 'copy: unexpected files %r' % (stray,)))
+        for k, b in expected.items():
+            if k not in files:
+                problems.append(('C13:copy-blob-missing', 'copy lacks the blob file of revision %r' % (k,)))
+            elif files[k] != b:
+                problems.append(('C13:copy-blob-bytes-differ', 'copy of %r holds %r, source %r'
+                                 % (k, files[k][:40], b[:40])))
+        for k in files:
+            if k not in expected:
+                problems.append(('C13:copy-file-without-record', 'copy has a blob file %r the source has not' % (k,)))
+    finally:
+        dst.close()
+    return ['reset fs'] + dst.lines, ['ok'] + dst.real, problems[:4]
